@@ -200,6 +200,12 @@ impl<'m> Interp<'m> {
     pub fn convert_to(&self, v: &V, ty: ir::TypeId) -> R<V> {
         match self.numeric(ty) {
             Some((k, dim)) => {
+                // a cast that adds vector components (`(float3)v2`) is accepted by the front end but has no meaning in HLSL
+                if let V::Vec(c) = v {
+                    if c.len() > 1 && dim > c.len() {
+                        return unsupported("cast that adds vector components");
+                    }
+                }
                 let r = conv(v, k, dim);
                 // a one-element vector type keeps its vector shape
                 Ok(if dim == 1 && self.is_vector_type(ty) { V::Vec(vec![r]) } else { r })
@@ -618,6 +624,8 @@ impl<'m> Interp<'m> {
         }
         Ok(match flow {
             Flow::Return(v) => v,
+            // the source's own meaning is undefined when a function with a result ends without one
+            _ if !self.m.type_registry.is_void(self.m.function_registry.get_function_signature(id).return_type.return_type) => return unsupported("a function with a result ends without returning a value"),
             _ => V::Void,
         })
     }
@@ -780,6 +788,7 @@ impl<'m> Interp<'m> {
         let frame = self.frames.pop().unwrap();
         let ret = match flow? {
             Flow::Return(v) => v,
+            _ if !self.m.type_registry.is_void(self.m.function_registry.get_function_signature(id).return_type.return_type) => return unsupported("a function with a result ends without returning a value"),
             _ => V::Void,
         };
         let outs = imp.params.iter().filter(|p| !matches!(p.param_type.input_modifier, ir::InputModifier::In)).map(|p| frame.get(&p.id.0).cloned().unwrap_or(V::Void)).collect();
